@@ -140,6 +140,39 @@ def run(ctx):
             nm = sum(1 for g in gates if g["g"] == "meas")
             ccases.append({"op": "circuit", "mode": "exec", "n": n, "cn": n if rng.random() < 0.8 else n + rng.choice([1, 2]), "v": rand_vec(rng, n, "normalised"),
                            "gates": gates, "draws": [float2bits(0.37)] * nm, "split": 0, "thr": rng.choice([10, 1])})
+    # circuits without gates: the width check does not depend on there being a gate to apply
+    for n in (1, 2, 3, 4):
+        for cn in (n, n + 1, max(1, n - 1), n + 2):
+            ccases.append({"op": "circuit", "mode": "exec", "n": n, "cn": cn, "v": rand_vec(rng, n, "normalised"), "gates": [], "draws": [], "split": 0, "thr": 10})
+    # Pauli-string entry points: a factor outside the register is an error through every entry point, also when the exponent
+    # or the time step is exactly zero (nothing to do is not a licence to skip validation)
+    pcases = []
+    z, one = [float2bits(0.0), float2bits(0.0)], [float2bits(1.0), float2bits(0.0)]
+    for n in (1, 2, 3, 5):
+        for far in (n, n + 1, 63, 64, 2**40):
+            ops = [[q, rng.choice("XYZ")] for q in rng.sample(range(n), rng.randrange(0, n))] + [[far, rng.choice("XYZ")]]
+            rng.shuffle(ops)
+            for coef in (one, z, [float2bits(0.3), float2bits(-0.2)]):
+                t = {"ops": ops, "coef": coef}
+                base = {"op": "pauli_exp", "n": n, "v": rand_vec(rng, n, "normalised"), "term": t, "thr": rng.choice([10, 1])}
+                pcases.append(dict(base, mode="exp"))
+                pcases.append(dict(base, mode="exp_factor", factor=rng.choice([z, one, [float2bits(0.0), float2bits(0.7)]])))
+            for dt in (0.0, -0.0, 0.4):
+                pcases.append({"op": "pauli_exp", "mode": "neg_i_dt", "n": n, "v": rand_vec(rng, n, "normalised"), "term": {"ops": ops, "coef": [float2bits(0.8), float2bits(0.0)]},
+                               "dt": float2bits(dt), "thr": 10})
+                for order in (1, 2):
+                    good = {"ops": [[0, "Z"]], "coef": [float2bits(0.4), float2bits(0.0)]}
+                    pcases.append({"op": "trotter", "mode": "step", "n": n, "v": rand_vec(rng, n, "normalised"), "terms": [good, {"ops": ops, "coef": [float2bits(0.8), float2bits(0.0)]}],
+                                   "dt": float2bits(dt), "order": order, "k": 1, "thr": 10})
+    pres = run_harness(pcases, nproc=8)
+    pst = {"cases": len(pcases), "errors": 0}
+    for c, r in zip(pcases, pres):
+        if r.get("r") == "err": pst["errors"] += 1
+        else:
+            what = "panic" if r.get("r") in ("panic", "crash") else "a state"
+            ctx.violations.append(("a Pauli string with a factor outside the register gave %s instead of an error (%s)" % (what, c["mode"]),
+                                   {"pauli_case": c, "impl": {k: r.get(k) for k in ("r", "e", "msg")}}))
+    stats["pauli_entry_points"] = pst
     cres = run_harness(ccases, nproc=8)
     cst = {"built": 0, "build_err": 0, "exec_ok": 0, "exec_err": 0}
     for c, r in zip(ccases, cres):
@@ -172,6 +205,10 @@ def run(ctx):
 
 def replay(ctx, path):
     body = json.load(open(path))
+    if body["replay"].get("pauli_case"):
+        r = run_harness([body["replay"]["pauli_case"]])[0]
+        print(json.dumps({"impl": {k: r.get(k) for k in ("r", "e", "msg")}}))
+        return 0 if r.get("r") == "err" else 1
     if body["replay"].get("circuit_case"):
         r = run_harness([body["replay"]["circuit_case"]])[0]
         print(json.dumps({k: (v if k != "trace" else "...") for k, v in r.items() if k not in ("oracles", "readback")})[:600]); return 1
